@@ -591,5 +591,5 @@ MANIFEST = {
              "and compared with reference bindings; twins are cross-checked; standard constant tables are folded and compared. Values computed by the third-party "
              "primitives are trusted, not re-derived.",
     "note": "Trusted: cryptography/crcmod APIs and constants. One known finding (Counter 32-bit overflow) is listed in known_findings.json. Not decided: byte-level equality with reference implementations.",
-    "technique": "static analysis: descriptor extraction with helper inlining, twin cross-check, order-type guard decision, symbolic byte layout, constant folding",
+    "technique": "static analysis: descriptor extraction with helper inlining, twin cross-check, order-type guard decision, symbolic byte layout, constant folding, finite-model evaluation of the KDF and of Counter as an object model, guarded paths",
 }
